@@ -119,10 +119,19 @@ class WrappedField:
             }
             # Also add the manually found class (in case it's not in the diagram)
             local_namespace[e.name] = found_clazz
-            result = get_type_hints(self.clazz.clazz, localns=local_namespace)[
-                self.field.name
-            ]
-            return result
+            while True:
+                try:
+                    result = get_type_hints(
+                        self.clazz.clazz, localns=local_namespace
+                    )[self.field.name]
+                    return result
+                except NameError as further:
+                    if further.name in local_namespace:
+                        raise
+                    # another annotation of the class names a class outside the diagram
+                    local_namespace[further.name] = manually_search_for_class_name(
+                        further.name
+                    )
 
     @cached_property
     def is_builtin_type(self) -> bool:
